@@ -165,6 +165,8 @@ def run_property(prop: str, rule_module, tier: str = 'quick', repo: Repo | None 
     try:
         repo = repo or Repo()
         ctx = Ctx(prop, repo, tier)
+        if getattr(repo, 'renames', None):
+            ctx.extra['recovered_renames'] = dict(repo.renames)       # functions read under the name the rules know (sa/canon.py)
         rule_module.run(ctx)
         ctx.verify_counts()
         extra_ctxs = []
